@@ -139,7 +139,27 @@ func (m *Machine) pickNext(self *Thread, selfRunnable bool, what string) *Thread
 			prefer = i
 		}
 	}
+	if fs := m.H.FixedSched; fs != nil {
+		// engine-side replay: follow the recorded schedule
+		if m.schedPos < len(fs) {
+			want := fs[m.schedPos]
+			m.schedPos++
+			for _, t := range opts {
+				if t.id == want {
+					m.schedule = append(m.schedule, t.id)
+					return t
+				}
+			}
+		}
+		if selfRunnable {
+			m.schedule = append(m.schedule, self.id)
+			return self
+		}
+		m.schedule = append(m.schedule, opts[0].id)
+		return opts[0]
+	}
 	if selfRunnable && m.preempts >= m.H.Preemptions {
+		m.schedule = append(m.schedule, self.id)
 		return self
 	}
 	c := 0
